@@ -11,7 +11,8 @@
     deco <text>                          DecoratorHelper._parse → ok <path> <k>=<v>;… <join_args>
     param <text>                         Param.parse            → ok <type> <symbol> <default> | <error>
     pluck <text> | indexer <text> | cvarnew <text>     PatternParser.pluck_func_call_arguments / break_indexer / pluck_cvar_new
-    range <for_in> <args_num>            Py2Cpp.proc_for_range  → ok <begin> <size> <step>
+    callsplit <call> <args_num>          break_separator(pluck_func_call_arguments(call), ',') unpacked (former proc_for_range; no production site) → ok <a> <b> <c>
+    initcall <value> <var_type>          Py2Cpp.is_initializer_call → ok true|false
     throw <throws>                       Py2Cpp.on_throw        → ok <calls> <hex>,…
     dictcomp <projection>                Py2Cpp.on_dict_comp    → ok <key> <value>
     dany <deco> <path,…> | danyargs <deco> <subject>   DecoratorHelper.any / any_args → ok true|false
@@ -130,10 +131,16 @@ def step (_ : Unit) : List String → Unit × String
       | .ok (a, b) => ((), s!"ok {Str.hex a} {Str.hex b}")
       | .error e => ((), err e)
     | none => ((), "bad-op")
-  | ["range", t, n] =>
+  | ["callsplit", t, n] =>
     match unhex? t, n.toNat? with
-    | some t, some n => match forRangeVars t n with
+    | some t, some n => match splitCallArguments t n with
       | .ok (a, b, c) => ((), s!"ok {Str.hex a} {Str.hex b} {Str.hex c}")
+      | .error e => ((), err e)
+    | _, _ => ((), "bad-op")
+  | ["initcall", t, v] =>
+    match unhex? t, unhex? v with
+    | some t, some v => match isInitializerCall t v with
+      | .ok b => ((), s!"ok {b}")
       | .error e => ((), err e)
     | _, _ => ((), "bad-op")
   | ["throw", t] =>
